@@ -360,16 +360,40 @@ theorem imgHyp_crash_C5b {img : Fs} {jc : List (Closed × List Record)} {oid : N
 
 /-! ### The effects of `open`, one by one -/
 
-/-- The file-system effect of one event of `open`. (`Fs.truncate` is durable when it
-returns, so the `sync` that follows changes nothing.) -/
+/-- The file-system effect of one event of `open`. (D15: a successful `sync` makes the file
+durable up to its length; `open` syncs every chunk file it keeps.) -/
 def openEffC5b (fs : Fs) : Ev → Fs
   | .trunc _ id len => fs.truncate id len
+  | .sync _ id true => fs.sync id
   | .unlink _ id true => fs.unlink id
   | .create _ id true => fs.create id
   | .write _ id bs true => fs.write id bs
   | _ => fs
 
 def openEffsC5b (evs : List Ev) (fs : Fs) : Fs := evs.foldl openEffC5b fs
+
+theorem openEffs_append_C5b (xs ys : List Ev) (fs : Fs) :
+    openEffsC5b (xs ++ ys) fs = openEffsC5b ys (openEffsC5b xs fs) := by
+  simp [openEffsC5b, List.foldl_append]
+
+/-- On a directory whose files are all durable, the syncs of `open` change nothing. -/
+theorem openEffs_syncEvs_C5b {fs : Fs} (hd : AllDurable fs) (ids : List Nat) :
+    openEffsC5b (syncEvs ids) fs = fs := by
+  induction ids with
+  | nil => rfl
+  | cons id ids ih =>
+    show openEffsC5b (syncEvs ids) (fs.sync id) = fs
+    rw [hd.sync_eq id]; exact ih
+
+/-- A prefix of `syncEvs ids ++ rest` acts on an all-durable directory like the
+corresponding prefix of `rest`. -/
+theorem openEffs_take_pre_C5b {fs : Fs} (hd : AllDurable fs) (ids : List Nat) (rest : List Ev)
+    (k : Nat) :
+    openEffsC5b ((syncEvs ids ++ rest).take k) fs
+      = openEffsC5b (rest.take (k - (syncEvs ids).length)) fs := by
+  rw [List.take_append, openEffs_append_C5b]
+  have : (syncEvs ids).take k = syncEvs (ids.take k) := by simp [syncEvs, List.map_take]
+  rw [this, openEffs_syncEvs_C5b hd]
 
 /-- **A crash at any moment of recovery is recoverable.** Same hypotheses as
 `openStore_image_C5b`. `open` succeeds; replaying its events on the directory gives the
@@ -405,6 +429,8 @@ theorem openStore_image_steps_C5b (cfg cfg'' : Cfg) (ht : cfg.truncate = true)
     exact ⟨s'', w'', fs'', evs'', q1, q3, q4⟩
   obtain ⟨a1, sm2, k1, k2, k3, k4, k5, k6, k7, k8, k9, k10, k11, k12, k13, k14, hloop⟩ :=
     openLoop_image_ok_C5b cfg ht h.ids h.files' h.rep h.chained h.g0 hparse hcase hstJ hlJ
+      h.allDurable
+  have hAD := h.allDurable
   by_cases hnil : jo.take j = []
   · -- case C
     rw [if_pos hnil] at hloop
@@ -424,16 +450,22 @@ theorem openStore_image_steps_C5b (cfg cfg'' : Cfg) (ht : cfg.truncate = true)
         recov_crash_again_C5b q2 (by rw [q3, q4]; exact hbelow) hc cfg'' ht''
       exact ⟨s'', w'', fs'', evs'', r1, by rw [r3, q3], by rw [r4, q4]⟩
     refine ⟨s', w', fs', evs, q1, q3, q4, ?_, ?_⟩
-    · rw [q10, q9]
-      cases tailTruncC5b (jo.take j) rest <;> rfl
+    · rw [q10, q9, openEffs_append_C5b, openEffs_syncEvs_C5b hAD]
+      cases tailTruncC5b (jo.take j) rest with
+      | none => rfl
+      | some len =>
+        have e2 := (hAD.truncate oid len).sync_eq oid
+        show ((((img.truncate oid len).sync oid).unlink oid).create oid).write oid _ = _
+        rw [e2]; rfl
     · intro k X' hc
-      rw [q10] at hc
+      rw [q10, openEffs_take_pre_C5b hAD] at hc
+      generalize k - (syncEvs (jc.map (·.1.id))).length = k' at hc
       have hL0 : (encAll (jo.take j)).length = 0 := by rw [hnil]; rfl
       cases htr : tailTruncC5b (jo.take j) rest with
       | none =>
         rw [htr] at hc q9
         simp only [truncEvsC5b, List.nil_append] at hc
-        match k, hc with
+        match k', hc with
         | 0, hc => exact hK0 X' hc
         | 1, hc => exact steps_K2C_C5b cfg'' ht'' h none hc
         | 2, hc => exact steps_K3C_C5b cfg'' ht'' h none hbelow hc
@@ -450,22 +482,35 @@ theorem openStore_image_steps_C5b (cfg cfg'' : Cfg) (ht : cfg.truncate = true)
         subst hlen
         rw [htr] at hc q9
         simp only [truncEvsC5b, List.cons_append, List.nil_append] at hc
-        match k, hc with
+        have e2 := (hAD.truncate oid 0).sync_eq oid
+        match k', hc with
         | 0, hc => exact hK0 X' hc
         | 1, hc =>
           have hc' : CrashImage (img.truncate oid (encAll (jo.take j)).length) X' := by
             rw [hL0]; exact hc
           exact steps_K1_C5b cfg'' ht'' h hj hdata hstJ hlJ hbelow hc'
         | 2, hc =>
+          have hc0 : CrashImage ((img.truncate oid 0).sync oid) X' := hc
+          rw [e2] at hc0
           have hc' : CrashImage (img.truncate oid (encAll (jo.take j)).length) X' := by
-            rw [hL0]; exact hc
+            rw [hL0]; exact hc0
           exact steps_K1_C5b cfg'' ht'' h hj hdata hstJ hlJ hbelow hc'
-        | 3, hc => exact steps_K2C_C5b cfg'' ht'' h (some 0) hc
-        | 4, hc => exact steps_K3C_C5b cfg'' ht'' h (some 0) hbelow hc
+        | 3, hc =>
+          have hc0 : CrashImage (((img.truncate oid 0).sync oid).unlink oid) X' := hc
+          rw [e2] at hc0
+          exact steps_K2C_C5b cfg'' ht'' h (some 0) hc0
+        | 4, hc =>
+          have hc0 : CrashImage ((((img.truncate oid 0).sync oid).unlink oid).create oid) X' := hc
+          rw [e2] at hc0
+          exact steps_K3C_C5b cfg'' ht'' h (some 0) hbelow hc0
         | k + 5, hc =>
           apply hfinal X'
           rw [q9]
-          simpa [openEffsC5b, openEffC5b, truncFsC5b] using hc
+          have hc0 : CrashImage (((((img.truncate oid 0).sync oid).unlink oid).create oid).write oid
+              (encRecord (.state stC))) X' := by
+            simpa [openEffsC5b, openEffC5b] using hc
+          rw [e2] at hc0
+          exact hc0
   · rw [if_neg hnil] at hloop
     have hj1 : 1 ≤ j := by
       cases j with
@@ -479,9 +524,21 @@ theorem openStore_image_steps_C5b (cfg cfg'' : Cfg) (ht : cfg.truncate = true)
       rw [hrest, List.append_nil] at hdata'
       obtain ⟨s', w', q1, q2, q3, q4, _⟩ :=
         openStore_caseA_C5b cfg h hj1 hdata' k1 k2 k5 k6 k7 k8 k9 k12 k13 k14 hstJ hlJ hloop
-      refine ⟨s', w', img, [], q1, q3, q4, rfl, ?_⟩
+      have hsA : ∀ k, openEffsC5b ((syncEvs (jc.map (·.1.id)) ++ [Ev.sync "o" oid true]).take k) img
+          = img := by
+        intro k
+        have : syncEvs (jc.map (·.1.id)) ++ [Ev.sync "o" oid true]
+            = syncEvs (jc.map (·.1.id) ++ [oid]) := by rw [syncEvs_append]; rfl
+        rw [this]
+        have : (syncEvs (jc.map (·.1.id) ++ [oid])).take k
+            = syncEvs ((jc.map (·.1.id) ++ [oid]).take k) := by simp [syncEvs, List.map_take]
+        rw [this, openEffs_syncEvs_C5b hAD]
+      refine ⟨s', w', img, _, q1, q3, q4, ?_, ?_⟩
+      · have := hsA (syncEvs (jc.map (·.1.id)) ++ [Ev.sync "o" oid true]).length
+        rw [List.take_length] at this
+        exact this
       intro k X' hc
-      simp only [List.take_nil, openEffsC5b, List.foldl_nil] at hc
+      rw [hsA k] at hc
       exact hK0 X' hc
     · -- case B
       have htr : tailTruncC5b (jo.take j) rest = some (encAll (jo.take j)).length := by
@@ -496,17 +553,39 @@ theorem openStore_image_steps_C5b (cfg cfg'' : Cfg) (ht : cfg.truncate = true)
         obtain ⟨s'', w'', fs'', evs'', _, _, r1, _, r3, r4⟩ :=
           recov_crash_again_C5b q2 (by rw [q3, q4]; exact hbelow) hc cfg'' ht''
         exact ⟨s'', w'', fs'', evs'', r1, by rw [r3, q3], by rw [r4, q4]⟩
-      refine ⟨s', w', fs', evs, q1, q3, q4, by rw [q10, q9]; rfl, ?_⟩
+      have e2 := (hAD.truncate oid (encAll (jo.take j)).length).sync_eq oid
+      refine ⟨s', w', fs', evs, q1, q3, q4, ?_, ?_⟩
+      · rw [q10, q9, openEffs_append_C5b, openEffs_syncEvs_C5b hAD]
+        show ((((img.truncate oid _).sync oid).sync oid).create _).write _ _ = _
+        rw [e2, e2]
       intro k X' hc
-      rw [q10] at hc
-      match k, hc with
+      rw [q10, openEffs_take_pre_C5b hAD] at hc
+      generalize k - (syncEvs (jc.map (·.1.id))).length = k' at hc
+      match k', hc with
       | 0, hc => exact hK0 X' hc
       | 1, hc => exact steps_K1_C5b cfg'' ht'' h hj hdata hstJ hlJ hbelow hc
-      | 2, hc => exact steps_K1_C5b cfg'' ht'' h hj hdata hstJ hlJ hbelow hc
-      | 3, hc => exact steps_K3B_C5b cfg'' ht'' h hj1 hdata hstJ hlJ hbelow hc
-      | k + 4, hc =>
+      | 2, hc =>
+        have hc0 : CrashImage ((img.truncate oid (encAll (jo.take j)).length).sync oid) X' := hc
+        rw [e2] at hc0
+        exact steps_K1_C5b cfg'' ht'' h hj hdata hstJ hlJ hbelow hc0
+      | 3, hc =>
+        have hc0 : CrashImage (((img.truncate oid (encAll (jo.take j)).length).sync oid).sync oid) X' :=
+          hc
+        rw [e2, e2] at hc0
+        exact steps_K1_C5b cfg'' ht'' h hj hdata hstJ hlJ hbelow hc0
+      | 4, hc =>
+        have hc0 : CrashImage ((((img.truncate oid (encAll (jo.take j)).length).sync oid).sync oid).create
+            (oid + (encAll (jo.take j)).length)) X' := hc
+        rw [e2, e2] at hc0
+        exact steps_K3B_C5b cfg'' ht'' h hj1 hdata hstJ hlJ hbelow hc0
+      | k + 5, hc =>
         apply hfinal X'
         rw [q9]
-        simpa [openEffsC5b, openEffC5b] using hc
+        have hc0 : CrashImage (((((img.truncate oid (encAll (jo.take j)).length).sync oid).sync oid).create
+            (oid + (encAll (jo.take j)).length)).write (oid + (encAll (jo.take j)).length)
+            (encRecord (.state stJ))) X' := by
+          simpa [openEffsC5b, openEffC5b] using hc
+        rw [e2, e2] at hc0
+        exact hc0
 
 end RaftLog
